@@ -2,7 +2,7 @@
 # usage: tools/benign_test.sh <patch.diff> — runs ALL quick checks against a patched scratch copy; prints alarms
 patch=$(readlink -f "$1")
 tag=bt_$$; R=/tmp/${tag}_repo; V=/tmp/${tag}_verif
-cp -r /repo $R && cp -r /verif $V || exit 2
+cp -a /repo $R && cp -a /verif $V || exit 2
 ( cd $R && git apply "$patch" ) || { echo "PATCH-DOES-NOT-APPLY"; rm -rf $R $V; exit 2; }
 ids=$(python3 -c "import json; print(' '.join(c['property_id'] for c in json.load(open('/verif/MANIFEST.json'))['checks']))")
 (cd $V && VERIF_REPO=$R tools/build.sh | grep -v "^$" | sed 's/^/  build: /')
